@@ -23,6 +23,7 @@ _T = [
     "C11_create_typed_default", "C11_new_layer_typed_default",
     "C11_layer_select_exact", "C11_layer_select_reads_cell_values", "C11_aggregate_exact",
     "C11_cast_rules_match_numpy", "C11_ufunc_types_match_numpy", "C11_cast_values_match_numpy",
+    "C11_grid_attribute_is_layer", "C11_grid_attribute_assignment_refused", "C11_grid_attribute_never_replaces_layer",
     "C18_layers_add_reject_unchanged", "C18_layers_create_reject_unchanged", "C18_layers_add_rejects_exactly",
     "C18_layers_step_reject_unchanged", "C18_layers_rejected_calls_invisible",
 ]
@@ -67,6 +68,10 @@ ASSUMPTIONS = [
     "operands, Python-function form only for operators whose result type does not depend on the value); magnitudes stay "
     "far below 2^53; a user-made layer called `empty` (after removing the built-in one) is bool or int and is not "
     "written with foreign-typed scalars, because the grid itself writes raw True/False into it",
+    "grid.<name>: layer names of the scenarios are not attributes of the Grid object itself (a layer called `torus` "
+    "would be hidden by that attribute; the model's grid starts without own attributes); `gset` assigns a plain object, "
+    "never `empty` while that name is free; the emptiness read-out takes the layer from the grid's dict, `dumpn` reads "
+    "the attribute path (HasPropertyLayers.__getattr__)",
 ]
 RULE = ("random scenarios over the three grid families (new cell spaces: Moore/VonNeumann/Hex, 1-3 dimensions, sizes 1-4, "
         "capacity None/1/2, torus or not; legacy SingleGrid/MultiGrid up to 4x4): 1-3 initial layers of dtype bool/int/float, "
@@ -79,11 +84,11 @@ RULE = ("random scenarios over the three grid families (new cell spaces: Moore/V
         "torus or not, 1-3 dimensions) kept and combined with the other filters of later selections, set_cells / set_property / "
         "layer.data = <held array> with and without condition, reads and writes through the cells of a second grid the layer "
         "is added to, numeric layers lifted to magnitude 10^7 (distinct values become near ties for the extreme values), references to layer.data read and written before/after "
-        "bulk ops, agent place/move/remove, emptiness read-outs, layer.select_cells, aggregate, grid.select_cells over all "
+        "bulk ops, agent place/move/remove, emptiness read-outs, layer.select_cells, aggregate, assignments to and reads of grid.<name>, grid.select_cells over all "
         "16 combinations of {conditions, masks (literal, saved earlier mask-form results), only_empty, extreme values "
         "(1-2 entries, ties frequent)}}, every 8th scenario from the rejecting-call generator; each scenario ends with a full "
-        "read-out; 8 hand-written probes (near-tie extremes, positional array set, dtype tour, copy / second grid / "
-        "neighbourhood mask, typed defaults with the layer's own select_cells / aggregate) run first. non-trivial = at least two successful state-changing ops and one read through a view; distinct = distinct "
+        "read-out; 9 hand-written probes (near-tie extremes, positional array set, dtype tour, copy / second grid / "
+        "neighbourhood mask, typed defaults with the layer's own select_cells / aggregate, grid attribute) run first. non-trivial = at least two successful state-changing ops and one read through a view; distinct = distinct "
         "op-line sequences (sha1)")
 HEADER_LINES = 1
 
@@ -197,6 +202,20 @@ agg 1 sum
 agg 1 max
 agg 1 min
 agg 2 sum""",
+    # grid.<name>: the attached layer; assignment refused while attached; an earlier attribute shadows it (code's caveat)
+    "grid-attribute": """scenario new 1x2 0 moore 0
+gset a
+create a int 3
+dumpn a
+cget a 0.1
+create b int 4
+gset b
+dumpn b
+detach b
+gset b
+gset empty
+dumpn empty
+dumpn zz""",
     "typed-defaults-legacy": """scenario multi 2x2 0 - 0
 create a int f:11
 cget a 0.1
